@@ -52,6 +52,11 @@ impl VIOT {
 
     fn update_header(&mut self, sum: u8, len: u32) {
         let old_len = self.header.length.get();
+        // Node offsets and the node count are 16-bit fields: the new
+        // node starts at the old end of the table
+        assert!(old_len <= u16::MAX as u32);
+        let old_count = u16::try_from(self.nodes.len()).expect("too many nodes");
+        assert!(old_count < u16::MAX);
         let new_len = len + old_len;
         self.header.length.set(new_len);
 
@@ -63,7 +68,6 @@ impl VIOT {
 
         // The header also contains a count of the number of nodes: replace
         // the bytes of the old count by those of the new one.
-        let old_count = self.nodes.len() as u16;
         let new_count = old_count + 1;
         self.checksum.delete(old_count.as_bytes());
         self.checksum.append(new_count.as_bytes());
@@ -71,22 +75,24 @@ impl VIOT {
         self.header.checksum = self.checksum.value();
     }
 
+    // NOTE: handle_offset may wrap after the last node that still starts
+    // within 16 bits; update_header() refuses any further node.
     pub fn add_pci_range(&mut self, range: PciRange) {
         self.update_header(range.u8sum(), PciRange::len() as u32);
-        self.handle_offset += PciRange::len() as u16;
+        self.handle_offset = self.handle_offset.wrapping_add(PciRange::len() as u16);
         self.nodes.push(Box::new(range));
     }
 
     pub fn add_mmio_endpoint(&mut self, ep: MmioEndpoint) {
         self.update_header(ep.u8sum(), MmioEndpoint::len() as u32);
-        self.handle_offset += MmioEndpoint::len() as u16;
+        self.handle_offset = self.handle_offset.wrapping_add(MmioEndpoint::len() as u16);
         self.nodes.push(Box::new(ep));
     }
 
     pub fn add_virtio_pci_iommu(&mut self, iommu: VirtIoPciIommu) -> TranslationHandle {
         let old_offset = self.handle_offset;
         self.update_header(iommu.u8sum(), VirtIoPciIommu::len() as u32);
-        self.handle_offset += VirtIoPciIommu::len() as u16;
+        self.handle_offset = self.handle_offset.wrapping_add(VirtIoPciIommu::len() as u16);
         self.nodes.push(Box::new(iommu));
         TranslationHandle(old_offset)
     }
@@ -94,7 +100,7 @@ impl VIOT {
     pub fn add_virtio_mmio_iommu(&mut self, iommu: VirtIoMmioIommu) -> TranslationHandle {
         let old_offset = self.handle_offset;
         self.update_header(iommu.u8sum(), VirtIoMmioIommu::len() as u32);
-        self.handle_offset += VirtIoMmioIommu::len() as u16;
+        self.handle_offset = self.handle_offset.wrapping_add(VirtIoMmioIommu::len() as u16);
         self.nodes.push(Box::new(iommu));
         TranslationHandle(old_offset)
     }
